@@ -642,6 +642,22 @@ fn malformed(g: &mut Gen) {
             emit(g, &t, false, false);
         }
     }
+    // three and four sources where only a later one does not fit
+    for n in [3usize, 4] {
+        for bad in 1..n {
+            for (op, bad_shape) in [("stack", "a:2,b:2"), ("stack", "a:2,c:3"), ("chain", "a:3,b:2"), ("chain", "a:1,c:3"), ("chain", "b:3,a:2")] {
+                for via in ["array", "tuple"] {
+                    g.op("@ case".into());
+                    for k in 0..n {
+                        g.op(format!("leaf {} {}", k + 1, if k == bad { bad_shape } else { "a:2,b:3" }));
+                    }
+                    g.op(format!("{} {} {} via={}", op, n, if op == "stack" { "1:s" } else { "a" }, via));
+                    g.op("shape".into());
+                    g.count("malformed.sources_later");
+                }
+            }
+        }
+    }
     // leaves the library must reject, dimensionalities that cannot be typed
     for l in [
         "leaf 1 a:0", "leaf 1 a:2,a:3", "leaf 1 a:2,b:0", "leaf 1 a:1,b:1,c:1,d:1,e:1,f:1,x:1", "matrix 1 2 2 a,a", "matrix 1 1 1 row,row",
